@@ -92,8 +92,12 @@ id3_skip (SF_PRIVATE * psf)
 		if (offset < 0)
 			return 0 ;
 
-		/* Position ourselves at the new file offset. */
-		if (psf->fileoffset + psf->id3_header.len < psf->filelength)
+		/*
+		** Position ourselves at the new file offset. psf->filelength is the length
+		** of the file as it starts at psf->fileoffset (an embedded file does not
+		** include what lies in front of it), so the tag length alone is compared.
+		*/
+		if (psf->id3_header.len < psf->filelength)
 		{	psf_binheader_readf (psf, "p!", psf->id3_header.len) ;
 			psf->fileoffset += psf->id3_header.len ;
 			return 1 ;
